@@ -95,7 +95,6 @@ func VH_c09_predicate_combinators() {
 	zz.Assert(eq.GivenFieldPtr(gp, q)(r) == ((p == nil && q == nil) || (p != nil && q != nil && v == w)), "GivenFieldPtr: both nil or equal targets")
 }
 
-
 // slices that are views of ONE backing array (same start, different lengths; overlapping windows): equality is by
 // content and length, never by identity of the storage
 func VH_c09_seq_slice_aliased() {
